@@ -182,6 +182,20 @@ package schema
 //@   ensures result == node_module(self)
 //@ func (Node).Name
 //@   nopanic
+//@   ensures result == node_name(self)
 //@ func (ListEntry).Keys
 //@   nopanic
 //@   ensures len(result) >= 1
+
+// ---------------------------------------------------------------------------
+// Sibling names (C12): a node is added under its local name; a second node with the same local name is
+// rejected whatever module it comes from (uses, augment), and a rejected addition changes nothing.
+//@ func (Node).HasDefault
+//@   nopanic
+//@ func (*node).addChild
+//@   requires n != nil && ch != nil && n.children != nil && n.defChildren != nil
+//@   modifies mapof(n.children)
+//@   modifies mapof(n.defChildren)
+//@   ensures iff(result != nil, old(inmap(n.children, node_name(ch))))
+//@   ensures implies(result == nil, inmap(n.children, node_name(ch)) && n.children[node_name(ch)] == ch)
+//@   ensures forallstr(k, implies(k != node_name(ch) || result != nil, inmap(n.children, k) == old(inmap(n.children, k)) && n.children[k] == old(n.children[k])))
